@@ -20,6 +20,7 @@ as it does on the real tree.
   T11 ifexp->stmt  `x = a if c else b` -> if/else statement
   T12 hoist-arg    first non-trivial argument of a statement-level call moved into a fresh local
   T13 keywordise   positional arguments of calls to uniquely named package functions become keyword arguments
+  T14 fstring->fmt f-strings become str.format calls with positional fields
   T6 aug-extend    `xs.extend(ys)` statement -> `xs += ys` for a local list initialised with `[]` / a list display
 
 usage: selftest_auto.py [T0 T1 ...] [-p Cnn ...]
@@ -313,6 +314,26 @@ def keywordise(src_by_file: dict[str, str]) -> dict[str, str]:
     return {f: ast.unparse(t) for f, t in trees.items()}
 
 
+class FStringToFormat(ast.NodeTransformer):
+    """T14: f"a {x} b" -> "a {} b".format(x) for f-strings whose fields carry no format spec."""
+    def visit_JoinedStr(self, node: ast.JoinedStr):
+        self.generic_visit(node)
+        tmpl = ""
+        args = []
+        for v in node.values:
+            if isinstance(v, ast.Constant) and isinstance(v.value, str):
+                tmpl += v.value.replace("{", "{{").replace("}", "}}")
+            elif isinstance(v, ast.FormattedValue) and v.format_spec is None:
+                conv = {-1: "", 115: "!s", 114: "!r", 97: "!a"}.get(v.conversion, "")
+                tmpl += "{" + conv + "}"
+                args.append(v.value)
+            else:
+                return node
+        if not args:
+            return node
+        return ast.copy_location(ast.Call(func=ast.Attribute(value=ast.Constant(tmpl), attr="format", ctx=ast.Load()), args=args, keywords=[]), node)
+
+
 def alpha_rename(src: str, filename: str) -> str:
     """Rename function-local variables consistently (suffix `_`): names bound in the function scope that are not
     parameters, not global/nonlocal, and not mentioned inside a nested def / lambda / class.  Uses inside
@@ -427,7 +448,7 @@ def transform(name: str, src: str, filename: str) -> str:
     if name == "T1":
         return alpha_rename(src, filename)
     tr = {"T2": SwapElse, "T3": DeMorgan, "T4": IsNotNone, "T5": TempReturn, "T6": AugExtend, "T8": LoopToComp, "T9": ReturnElse,
-          "T10": FlattenElse, "T11": IfExpToStmt, "T12": HoistArg}[name]()
+          "T10": FlattenElse, "T11": IfExpToStmt, "T12": HoistArg, "T14": FStringToFormat}[name]()
     tree = tr.visit(ast.parse(src))
     ast.fix_missing_locations(tree)
     return ast.unparse(tree)
@@ -479,7 +500,7 @@ def main() -> int:
     ap.add_argument("-p", nargs="*", default=[])
     ap.add_argument("--keep", action="store_true")
     ns = ap.parse_args()
-    names = ns.transforms or ["T0", "T1", "T2", "T3", "T4", "T5", "T6", "T7", "T8", "T9", "T10", "T11", "T12", "T13"]
+    names = ns.transforms or ["T0", "T1", "T2", "T3", "T4", "T5", "T6", "T7", "T8", "T9", "T10", "T11", "T12", "T13", "T14"]
     props = ns.p or PROPS
     bad = 0
     for name in names:
